@@ -60,7 +60,7 @@ def main():
             # the demonstration lives in the benchmark crate (it needs the reference implementation)
             os.makedirs(f"{repo}/benchmark/tests", exist_ok=True)
             for f in demo_files:
-                if f.endswith(".rs"):
+                if not f.endswith(".diff") and not f.endswith(".txt"):
                     shutil.copy(os.path.join(dest, "demo", f), f"{repo}/benchmark/tests/{f}")
             sh(f"git -C {repo} apply {dest}/demo/benchmark_manifest.diff")
             return
